@@ -72,6 +72,10 @@ func (b *Builder) Insert(key []byte, value uint64) error {
 		// the key length is recorded in 16 bits in the temporary bucket file
 		return fmt.Errorf("key is too long: %d bytes (max %d)", len(key), math.MaxUint16)
 	}
+	if intWidth(value) > intWidth(b.FileSize) {
+		// values are stored in intWidth(FileSize) bytes in the sealed buckets
+		return fmt.Errorf("value %d does not fit in %d bytes (target file size %d)", value, intWidth(b.FileSize), b.FileSize)
+	}
 	return b.buckets[b.Header.BucketHash(key)].writeTuple(key, value)
 }
 
